@@ -26,18 +26,45 @@ fn casings(ext: &str, all: bool) -> Vec<String> {
 	out
 }
 
-pub fn contents() -> Vec<(&'static str, Vec<u8>)> {
-	vec![
-		("json", b"{\"a\":1,\"b\":[1,2]}\n".to_vec()),
-		("yaml", b"k: v\nl:\n  - 1\n".to_vec()),
-		("toml", b"x = 1\n[t]\ny = \"z\"\n".to_vec()),
-		("msgpack", b"\x82\xa1a\x01\xa1b\x92\x01\x02".to_vec()),
-		("json+yaml", b"{\"a\": 1}".to_vec()),
-		("yaml+toml", b"[t]\n".to_vec()),
-		("json-multi", b"[1]\n[2]\n".to_vec()),
-		("invalid", b"\x00\x01{{{ @@@\n".to_vec()),
-		("empty", b"".to_vec()),
-	]
+/// Number of small contents (the full cross product runs over these only).
+const BASE_CONTENTS: usize = 9;
+
+/// A stream of 64-byte JSON documents of exactly `total` bytes.
+pub fn json_stream_exact(total: usize) -> Vec<u8> {
+	let n = (total / 64).max(1);
+	let mut out = Vec::with_capacity(total);
+	for i in 0..n {
+		let len = if i + 1 == n { total - 64 * (n - 1) } else { 64 };
+		let head = format!("{{\"i\":{i:06},\"p\":\"");
+		out.extend_from_slice(head.as_bytes());
+		out.extend(std::iter::repeat(b'y').take(len.saturating_sub(head.len() + 3)));
+		out.extend_from_slice(b"\"}\n");
+	}
+	out
+}
+
+pub fn contents() -> &'static Vec<(String, Vec<u8>)> {
+	static C: std::sync::OnceLock<Vec<(String, Vec<u8>)>> = std::sync::OnceLock::new();
+	C.get_or_init(|| {
+		let mut v: Vec<(String, Vec<u8>)> = vec![
+			("json".into(), b"{\"a\":1,\"b\":[1,2]}\n".to_vec()),
+			("yaml".into(), b"k: v\nl:\n  - 1\n".to_vec()),
+			("toml".into(), b"x = 1\n[t]\ny = \"z\"\n".to_vec()),
+			("msgpack".into(), b"\x82\xa1a\x01\xa1b\x92\x01\x02".to_vec()),
+			("json+yaml".into(), b"{\"a\": 1}".to_vec()),
+			("yaml+toml".into(), b"[t]\n".to_vec()),
+			("json-multi".into(), b"[1]\n[2]\n".to_vec()),
+			("invalid".into(), b"\x00\x01{{{ @@@\n".to_vec()),
+			("empty".into(), b"".to_vec()),
+		];
+		assert!(v.len() == BASE_CONTENTS);
+		// inputs of every exact size around the page / buffer / pipe sizes (whatever way the CLI gets at
+		// the bytes of a file, FIFO or standard input must not depend on how many there are)
+		for size in crate::gen::size_ladder(false) {
+			v.push((format!("json-stream-{size}"), json_stream_exact(size)));
+		}
+		v
+	})
 }
 
 #[derive(Clone, Debug, PartialEq, Eq, Hash)]
@@ -60,7 +87,7 @@ struct Job {
 }
 
 fn case_json(j: &Job) -> Value {
-	json!({"kind": "resolution", "f_last": j.f_last, "f": j.fopt.map(F::name), "name": j.name, "content": contents()[j.content].0, "supply": format!("{:?}", j.supply), "to": j.to.name()})
+	json!({"kind": "resolution", "f_last": j.f_last, "f": j.fopt.map(F::name), "name": j.name, "content": contents()[j.content].0.clone(), "supply": format!("{:?}", j.supply), "to": j.to.name()})
 }
 
 fn run_job(dir: &Path, j: &Job, idx: usize) -> ProcOut {
@@ -176,7 +203,7 @@ pub fn run(ctx: &Ctx) -> CheckOutput {
 	for n in ["a.json.yaml", "a.yaml.json", ".json", "a.", "noext", "a.txt", "a.jsonx", "a.JSON.bak", "dir.yaml/a.toml", "a.b.c.yml", "-.json", "a.j", "a.m", "a.t", "a.y", "a.Y", "a.yam", "a.jso"] {
 		names.push(n.to_string());
 	}
-	let ncontents = contents().len();
+	let ncontents = BASE_CONTENTS;
 	let mut jobs: Vec<Job> = vec![];
 	let fopts = [None, Some(F::Json), Some(F::Msgpack), Some(F::Toml), Some(F::Yaml)];
 	for fopt in fopts {
@@ -203,6 +230,20 @@ pub fn run(ctx: &Ctx) -> CheckOutput {
 				}
 			}
 		}
+	}
+	// ladder-sized contents: by path (regular file, FIFO; with and without a telling extension) and on stdin
+	for content in BASE_CONTENTS..contents().len() {
+		for fopt in [None, Some(F::Json)] {
+			for name in ["noext", "a.json"] {
+				for supply in [Supply::File, Supply::Fifo] {
+					jobs.push(Job { f_last: false, fopt, name: name.to_string(), content, supply, to: F::Json });
+				}
+			}
+			for supply in [Supply::StdinImplicit, Supply::StdinDash] {
+				jobs.push(Job { f_last: false, fopt, name: String::new(), content, supply, to: F::Json });
+			}
+		}
+		jobs.push(Job { f_last: false, fopt: None, name: "noext".into(), content, supply: Supply::Fifo, to: F::Msgpack });
 	}
 	let dir = w.path().to_path_buf();
 	let tallies = par_fold(&jobs, Tally::default, |t, idx, j| {
@@ -315,7 +356,7 @@ pub fn run(ctx: &Ctx) -> CheckOutput {
 	CheckOutput {
 		level: "exploration",
 		tally,
-		rule: format!("full product of -f in {{absent, json, msgpack, toml, yaml}} x {} file names (every letter-casing of json, yaml, yml, toml{}; multi-dot names, hidden '.json', trailing dot, no extension, unknown and misleading extensions) x {} contents (each format, valid in two formats, multi-document, invalid, empty) x supply in {{regular file (mmap), FIFO, implicit stdin, '-'}} x targets (the -f option written before and, for the JSON target, also after the operand), through the real binary (debug and release alternating); expected source = -f, else the (case-insensitive, last) extension, else detection; stdout and exit status must equal the library's result for that source on the same bytes (slice for regular files, reader otherwise). Plus input lists with '-' first/middle/last, '-' twice, a directory, paths below a directory with a misleading name, compared with one in-process Translator; plus multi-document streams on stdin delivered by a bursty producer in two packets split at EVERY byte offset (second packet only after xt drained the first).", names.len(), if thorough { " and msgpack" } else { " and 6 casings of msgpack" }, ncontents),
+		rule: format!("full product of -f in {{absent, json, msgpack, toml, yaml}} x {} file names (every letter-casing of json, yaml, yml, toml{}; multi-dot names, hidden '.json', trailing dot, no extension, unknown and misleading extensions) x {} contents (each format, valid in two formats, multi-document, invalid, empty) x supply in {{regular file (mmap), FIFO, implicit stdin, '-'}} x targets (the -f option written before and, for the JSON target, also after the operand), through the real binary (debug and release alternating); expected source = -f, else the (case-insensitive, last) extension, else detection; stdout and exit status must equal the library's result for that source on the same bytes (slice for regular files, reader otherwise). Plus JSON streams of every exact size 2^k-1, 2^k, 2^k+1 around 4 KiB..64 KiB given as a regular file, a FIFO (with and without a telling extension) and on standard input. Plus input lists with '-' first/middle/last, '-' twice, a directory, paths below a directory with a misleading name, compared with one in-process Translator; plus multi-document streams on stdin delivered by a bursty producer in two packets split at EVERY byte offset (second packet only after xt drained the first).", names.len(), if thorough { " and msgpack" } else { " and 6 casings of msgpack" }, ncontents),
 		exhaustive: true,
 		bounds: json!({"names": names.len(), "contents": ncontents}),
 		assumptions: vec!["where the library's slice and reader results differ (C02's known classes) either is accepted and the case is tallied".into()],
